@@ -15,8 +15,8 @@ class C14Engine:
 		self.weights = [("um", 6), ("dump", 2)]
 		try:
 			import os
-			if os.environ.get("VERIF_C14_TRXCON", "0") != "1":
-				raise ImportError("trxcon sub-engine not enabled yet")
+			if os.environ.get("VERIF_C14_TRXCON", "1") != "1":
+				raise ImportError("trxcon sub-engine disabled by VERIF_C14_TRXCON=0")
 			from engines.trxcon import ENGINE as trxcon
 			self.subs["trxcon"] = trxcon
 			self.weights.append(("trxcon", 4))
